@@ -2142,3 +2142,6 @@ def c19_thermal(model, meta):
 def c19_thermal_search(meta, seed, budget):
     yield {"tz_temp": 50000, "tz_crit": 100000, "tz_high": 90000}
     yield {"tz_temp": 1, "tz_crit": 2000, "tz_high": 1000}
+
+
+from replay import runners_c  # noqa: E402,F401  (C-level runners: C17, C18)
